@@ -206,6 +206,13 @@ pub fn update_fabric_label(label: &str) -> Vec<u8> {
     })
 }
 
+/// OperationalCredentials::SetVIDVerificationStatement (vendor id only)
+pub fn set_vid_verification_statement(vendor_id: u16) -> Vec<u8> {
+    invoke_with(CL_OP_CREDS, 0x0C, false, |tw| {
+        tw.u16(&TLVTag::Context(0), vendor_id).unwrap();
+    })
+}
+
 /// GroupKeyManagement::KeySetWrite with one epoch key
 pub fn key_set_write(key_set_id: u16) -> Vec<u8> {
     invoke_with(CL_GRP_KEY, 0, false, |tw| {
